@@ -35,6 +35,14 @@ package adjRIBIn
 //@   call RouteTableClient.AddPath args cpfx *net.Prefix, q *route.Path requires q.HiddenReason == route.HiddenReasonNone
 //@   call RouteTableClient.ReplacePath args cpfx *net.Prefix, old *route.Path, q *route.Path requires q.HiddenReason == route.HiddenReasonNone
 
+// Property C07 (what detaching the table from a client removes): the client is
+// told to remove the path as the filter chain exported it - the path it holds -
+// and only paths that were announced to it (eligible ones).
+//@ contract (*AdjRIBIn).Unregister
+//@   props C07 C06
+//@   nosafety
+//@   call RouteTableClient.RemovePath args cpfx *net.Prefix, q *route.Path vars exported *route.Path, p *route.Path requires q == exported && p.HiddenReason == route.HiddenReasonNone
+
 //@ contract (*AdjRIBIn).UpdateNewClient
 //@   props C06
 //@   nosafety
@@ -96,11 +104,17 @@ package adjRIBIn
 //@   acquires 10
 //@   locks C25
 
-//@ contract (*AdjRIBIn).Unregister, (*AdjRIBIn).ClientCount
+//@ contract (*AdjRIBIn).ClientCount
 //@   props C25
 //@   nosafety
 //@   acquires 11
 //@   locks C25
+
+//@ contract (*AdjRIBIn).Unregister
+//@   props C25 C26
+//@   acquires 10
+//@   locks C25
+//@   guards C26
 
 //@ contract (*AdjRIBIn).LPM, (*AdjRIBIn).Get, (*AdjRIBIn).GetLonger
 //@   props C25
